@@ -78,6 +78,37 @@ def run(ctx):
             fmt.load(tlv.join([(cid, alt.encode() + b"\0" if cid == b"STYP" else pl) for cid, pl in chunks]))
             nvar += 1
     ctx.cov["type_name_variants_loaded"] = nvar
+    # files as a NEWER SunVox might write them: an enumeration value the specification does not list, more stored controller
+    # values than the type has controllers (loading may refuse or drop them; the classes must not learn them)
+    import struct
+    nnew = 0
+    for t, st in spec.items():
+        cls = rv.modules.MODULE_CLASSES.get(t)
+        if cls is None or t == "Output":
+            continue
+        try:
+            chunks = tlv.split(api.Synth(cls()).read())
+        except Exception:
+            continue
+        cv = [j for j, (cid, _) in enumerate(chunks) if cid == b"CVAL"]
+        for k, c in enumerate(st["ctls"]):
+            if c["kind"] == "enum" and k < len(cv):
+                for bad in (max(m_[1] for m_ in c["members"]) + 1, 255):
+                    ed = list(chunks)
+                    ed[cv[k]] = (b"CVAL", struct.pack("<i", bad))
+                    fmt.load(tlv.join(ed))
+                    nnew += 1
+        if cv:
+            for extra in (1, 3):
+                ed = chunks[:cv[-1] + 1] + [(b"CVAL", struct.pack("<i", 7))] * extra + chunks[cv[-1] + 1:]
+                fmt.load(tlv.join(ed))
+                pj = api.Project()
+                pj.attach_module(cls())
+                pc = tlv.split(pj.read())
+                last = max(j for j, (cid, _) in enumerate(pc) if cid == b"CVAL")
+                fmt.load(tlv.join(pc[:last + 1] + [(b"CVAL", struct.pack("<i", 7))] * extra + pc[last + 1:]))
+                nnew += 2
+    ctx.cov["newer_version_files_loaded"] = nnew
     # MetaModules whose user-defined controllers mirror controllers of embedded modules (built, saved, loaded, cloned)
     from .. import gen
     for k in range(10):
